@@ -113,6 +113,19 @@ PROPS = {
         "level_text": "Theorems C06_opendir, C06_bulk (READ_DIR = one record per statable entry, a permutation of the directory, true fields), "
                       "C06_iter (entry-by-entry enumeration yields each entry once then the end marker, any mix of V1/V2), C06_stat, C06_dirsize, C06_names.",
     },
+    "C09": {
+        "jobs": [{"cmd": "viso", "quick": 150, "thorough": 4000, "timeout": 3000}],
+        "rule": "generated images of trees with 0..25 files of boundary sizes (0,1,2047,2048,2049,64KiB+-1, random; a sparse file past 4 GiB in some) x "
+                "sequences of 5..45 Read/Seek/ReadAt operations with offsets at structural boundaries +-2 and lengths 1..1 MiB; the image internals "
+                "(fsBuf, file table, pad area) are taken from the real object through an overlay accessor; non-trivial = the sequence touches >= 2 zones; "
+                "distinct by hash of (image, ops)",
+        "assumptions": ["slices.BinarySearchFunc finds the first element whose comparison is >= 0 (its documented contract for a monotone comparator)",
+                        "files do not change on disk while an image is open"],
+        "partial": [],
+        "level_text": "Theorems C09_reader_ok (every read = the slice of one flat byte function, all offsets/lengths/zones/file sizes), C09_history "
+                      "(any Read/Seek/ReadAt sequence = plain cursor semantics), C09_progress, over the zone-by-zone model of VirtualISO.read with the "
+                      "iterator's own counters; image internals in the differential come from the real object.",
+    },
     "C13": {
         "jobs": [sess_job(140, 2500, keep_ops=[], held=True, leak=True)],
         "rule": SESS_RULE, "assumptions": SESS_ASSUME,
